@@ -242,6 +242,7 @@ void orc_c18_api(const ApiRec &r, const Frame &f, const std::string &snap0, cons
     }
     s.tb_refusal_armed = false;   // whatever else the call returned, it got (and used up) a token
     if (r.rc != 0 || s.tb_rate == 0) return;
+    if (f.gseq < s.tb_set_gseq) return;   // the call was entered (and charged) before this bucket existed: it only returns now
     // a successful token consuming call: every window of successes is bounded by burst + refills + 1
     oracle_eval("C18.rate-bound");
     if (s.tb_refusal_armed) s.tb_success_since_refusal++;
